@@ -10,8 +10,8 @@
    (free_cache, factorok, basis repacking in ILLlib_delrows/delcols, the "skip the
    optimization when basis and cache exist" shortcut of QSopt_primal/dual) is modelled
    as the code has it (tree of 2026-09-30 incl. the factorok fix for QSchange_coef/senses).
-   Not modelled: factorok after QSadd_row(s) (depends on stored dual norms), the LU
-   factors, norms. *)
+   a_rn: whether the stored basis carries row norms (decides factorok after QSadd_row(s)).
+   Not modelled: the LU factors, the values of the norms. *)
 From Coq Require Import String Ascii ZArith.
 From QSX Require Import Store.Spec Store.SpecInv.
 From QSX Require Import LP.Cert LP.CertSound LP.Unique.
@@ -19,24 +19,27 @@ Local Open Scope Q_scope.
 
 Record cache := { ca_val : Q; ca_x : list Q; ca_pi : list Q; ca_rc : list Q; ca_slack : list Q }.
 Record basis := { ba_c : list ascii; ba_r : list ascii }.
-Record api := { a_p : prob; a_basis : option basis; a_cache : option cache; a_qstatus : Z; a_factorok : bool }.
+Record api := { a_p : prob; a_basis : option basis; a_cache : option cache; a_qstatus : Z; a_factorok : bool;
+                a_rn : bool (* the stored basis carries dual steepest-edge row norms (p->basis->rownorms) *) }.
 
 Definition ST_OPTIMAL : Z := 1.
 Definition ST_UNSOLVED : Z := 6.
 Definition ST_MODIFIED : Z := 100.
 
 Definition api_init (p : prob) : api :=
-  {| a_p := p; a_basis := None; a_cache := None; a_qstatus := ST_UNSOLVED; a_factorok := false |}.
+  {| a_p := p; a_basis := None; a_cache := None; a_qstatus := ST_UNSOLVED; a_factorok := false; a_rn := false |}.
 
 Definition with_p (s : api) (p : prob) : api :=
-  {| a_p := p; a_basis := a_basis s; a_cache := a_cache s; a_qstatus := a_qstatus s; a_factorok := a_factorok s |}.
+  {| a_p := p; a_basis := a_basis s; a_cache := a_cache s; a_qstatus := a_qstatus s; a_factorok := a_factorok s; a_rn := a_rn s |}.
 Definition with_basis (s : api) (b : option basis) : api :=
-  {| a_p := a_p s; a_basis := b; a_cache := a_cache s; a_qstatus := a_qstatus s; a_factorok := a_factorok s |}.
+  {| a_p := a_p s; a_basis := b; a_cache := a_cache s; a_qstatus := a_qstatus s; a_factorok := a_factorok s; a_rn := a_rn s |}.
 Definition with_factor (s : api) (f : bool) : api :=
-  {| a_p := a_p s; a_basis := a_basis s; a_cache := a_cache s; a_qstatus := a_qstatus s; a_factorok := f |}.
+  {| a_p := a_p s; a_basis := a_basis s; a_cache := a_cache s; a_qstatus := a_qstatus s; a_factorok := f; a_rn := a_rn s |}.
+Definition with_rn (s : api) (r : bool) : api :=
+  {| a_p := a_p s; a_basis := a_basis s; a_cache := a_cache s; a_qstatus := a_qstatus s; a_factorok := a_factorok s; a_rn := r |}.
 (* free_cache() of qsopt.c *)
 Definition free_cache (s : api) : api :=
-  {| a_p := a_p s; a_basis := a_basis s; a_cache := None; a_qstatus := ST_MODIFIED; a_factorok := a_factorok s |}.
+  {| a_p := a_p s; a_basis := a_basis s; a_cache := None; a_qstatus := ST_MODIFIED; a_factorok := a_factorok s; a_rn := a_rn s |}.
 
 Definition restrict {A} (l : list A) (ds : list nat) : list A := fold_left (fun l i => remove_nth i l) (sort_desc ds) l.
 
@@ -85,13 +88,14 @@ Definition eff_delrows (s : api) (p' : prob) (ds : list nat) : api :=
                   | Some c => (basis_ok && forallb (fun i => Qeq_bool (nth i (ca_pi c) 0) 0) ds)%bool
                   | None => false end in
   let b' := if basis_ok then match a_basis s with Some b => Some {| ba_c := ba_c b; ba_r := restrict (ba_r b) ds |} | None => None end else None in
-  let s1 := {| a_p := p'; a_basis := b'; a_cache := a_cache s; a_qstatus := a_qstatus s; a_factorok := false |} in
+  let rn' := (basis_ok && a_rn s)%bool in
+  let s1 := {| a_p := p'; a_basis := b'; a_cache := a_cache s; a_qstatus := a_qstatus s; a_factorok := false; a_rn := rn' |} in
   if cache_ok
   then {| a_p := p'; a_basis := b';
           a_cache := match a_cache s with
                      | Some c => Some {| ca_val := ca_val c; ca_x := ca_x c; ca_pi := restrict (ca_pi c) ds; ca_rc := ca_rc c; ca_slack := restrict (ca_slack c) ds |}
                      | None => None end;
-          a_qstatus := a_qstatus s; a_factorok := false |}
+          a_qstatus := a_qstatus s; a_factorok := false; a_rn := rn' |}
   else free_cache s1.
 
 Definition eff_delcols (s : api) (p' : prob) (ds : list nat) : api :=
@@ -99,7 +103,7 @@ Definition eff_delcols (s : api) (p' : prob) (ds : list nat) : api :=
                   | Some b => forallb (fun j => negb (stat_in (ba_c b) j "1")) ds
                   | None => false end in
   let b' := if basis_ok then match a_basis s with Some b => Some {| ba_c := restrict (ba_c b) ds; ba_r := ba_r b |} | None => None end else None in
-  free_cache {| a_p := p'; a_basis := b'; a_cache := a_cache s; a_qstatus := a_qstatus s; a_factorok := false |}.
+  free_cache {| a_p := p'; a_basis := b'; a_cache := a_cache s; a_qstatus := a_qstatus s; a_factorok := false; a_rn := (basis_ok && a_rn s)%bool |}.
 
 (* QSchange_senses: only the logical of a ranged row can be nonbasic at its upper bound - a row that stops being
    ranged is moved from UPPER to LOWER in the stored basis (ILLbasis_load rejects UPPER for a non-ranged row) *)
@@ -111,13 +115,19 @@ Definition norm_rstat (s : api) (l : list (Z * ascii)) : api :=
                                               then upd_nth i (fun _ => "1"%char) r else r) l (ba_r b) |}
                 | None => None end).
 
+(* ILLlib_addrows: without stored row norms the flag is cleared; with them the new rows get norms - from the live
+   factorization when factorok was set (then the flag is cleared: "badfactor"), else after refactoring the extended
+   basis (then the flag is set) *)
+Definition addrows_factor (s : api) : bool :=
+  match a_basis s with Some _ => (a_rn s && negb (a_factorok s))%bool | None => false end.
+
 (* what the wrapper of a successful edit does besides changing the problem *)
 Definition apply_effect (s : api) (o : pop) (p' : prob) : api :=
   match o with
   | NewCol _ lo up _ | AddCol _ lo up _ _ => free_cache (ext_c (with_p s p') [col_stat lo up])
   | AddCols l => free_cache (ext_c (with_p s p') (map (fun c => col_stat (snd (fst (fst (fst c)))) (snd (fst (fst c)))) l))
-  | NewRow _ _ _ | AddRow _ _ _ _ _ => free_cache (with_factor (ext_r (with_p s p') 1) false)
-  | AddRows l => free_cache (with_factor (ext_r (with_p s p') (length l)) false)
+  | NewRow _ _ _ | AddRow _ _ _ _ _ => free_cache (with_factor (ext_r (with_p s p') 1) (addrows_factor s))
+  | AddRows l => free_cache (with_factor (ext_r (with_p s p') (length l)) (addrows_factor s))
   | DelRows _ =>
       match del_rows_of (a_p s) o with
       | [] => let s1 := with_factor (with_p s p') false in match a_basis s with None => free_cache s1 | Some _ => s1 end
@@ -132,8 +142,9 @@ Definition apply_effect (s : api) (o : pop) (p' : prob) : api :=
       end
   | DelSetCols _ | DelNCols _ =>
       match del_cols_of (a_p s) o with [] => with_p s p' | ds => eff_delcols s p' ds end
-  | ChgSenses l => free_cache (with_factor (norm_rstat (with_p s p') l) false)
-  | ChgCoef _ _ _ | ChgRange _ _ => free_cache (with_factor (with_p s p') false)
+  | ChgSenses l => free_cache (with_rn (with_factor (norm_rstat (with_p s p') l) false) false)
+  | ChgCoef _ _ _ => free_cache (with_rn (with_factor (with_p s p') false) false)
+  | ChgRange _ _ => free_cache (with_factor (with_p s p') false)
   | ChgObj _ _ | ChgRhs _ _ | ChgBnds _ => free_cache (with_p s p')
   | ChgObjSense _ => if Bool.eqb (p_max p') (p_max (a_p s)) then with_p s p' else free_cache (with_p s p')
   | _ => with_p s p'
@@ -147,7 +158,7 @@ Definition api_edit (s : api) (o : pop) : api * result :=
   end.
 
 (* ---- solves: the simplex is an oracle ----------------------------------------------------- *)
-Record oans := { an_status : Z; an_basis : basis; an_sol : cache }.
+Record oans := { an_status : Z; an_basis : basis; an_sol : cache; an_rn : bool (* grab_basis obtained row norms *) }.
 
 Definition dims_ok_b (p : prob) (b : basis) : bool :=
   (Nat.eqb (length (ba_c b)) (ncol p) && Nat.eqb (length (ba_r b)) (nrow p))%bool.
@@ -160,20 +171,20 @@ Definition api_solve (s : api) (dual : bool) (r : oans) : api * bool :=
        | Some b => if dims_ok_b (a_p s) b then
                      ({| a_p := a_p s; a_basis := Some (an_basis r);
                          a_cache := if (an_status r =? ST_OPTIMAL)%Z then Some (an_sol r) else None;
-                         a_qstatus := an_status r; a_factorok := true |}, false)
-                   else ({| a_p := a_p s; a_basis := a_basis s; a_cache := a_cache s; a_qstatus := ST_UNSOLVED; a_factorok := a_factorok s |}, true)
+                         a_qstatus := an_status r; a_factorok := true; a_rn := an_rn r |}, false)
+                   else ({| a_p := a_p s; a_basis := a_basis s; a_cache := a_cache s; a_qstatus := ST_UNSOLVED; a_factorok := a_factorok s; a_rn := a_rn s |}, true)
        | None => ({| a_p := a_p s; a_basis := Some (an_basis r);
                      a_cache := if (an_status r =? ST_OPTIMAL)%Z then Some (an_sol r) else None;
-                     a_qstatus := an_status r; a_factorok := true |}, false)
+                     a_qstatus := an_status r; a_factorok := true; a_rn := an_rn r |}, false)
        end.
 
 (* QSload_basis / QSload_basis_array *)
 Definition api_load_basis (s : api) (b : basis) : api * bool :=
-  if dims_ok_b (a_p s) b then (with_factor (with_basis s (Some b)) false, false) else (s, true).
+  if dims_ok_b (a_p s) b then (with_rn (with_factor (with_basis s (Some b)) false) false, false) else (s, true).
 
 (* QSexact_solver leaving through QSexact_optimal_test: basis loaded, cache filled, status OPTIMAL *)
 Definition api_exact_cert (s : api) (b : basis) (c : cache) : api :=
-  {| a_p := a_p s; a_basis := Some b; a_cache := Some c; a_qstatus := ST_OPTIMAL; a_factorok := false |}.
+  {| a_p := a_p s; a_basis := Some b; a_cache := Some c; a_qstatus := ST_OPTIMAL; a_factorok := false; a_rn := false |}.
 
 Inductive aop :=
 | AEdit (o : pop)
